@@ -1,44 +1,15 @@
-(* C19 -- the pinned code violates the property in three ways; each witness is evaluated on the model
-   (which corresponds to the implementation case by case) and reproduced on the real code by corpus/C19. *)
+(* C19 -- what the pinned code still violates.  The witness is evaluated on the model (which corresponds to the
+   implementation case by case) and reproduced on the real code by corpus/C19.
+   Two earlier witnesses are gone with the repairs in /repo: the responder is no longer ended by datagrams
+   (fix 8298523, now C19_survives / C19_keeps_answering in Properties.v) and a disabled responder no longer
+   broadcasts (fix d6d9c1c, now C19_sends_good without guard). *)
 From Coq Require Import List Arith ZArith NArith Bool Lia String.
 Import ListNotations.
 Require Import FV.Gen.C19 FV.C19.Model FV.C19.LemmasUtf8 FV.C19.LemmasJson FV.C19.Lemmas.
 Open Scope N_scope.
 
-Definition cfg_small : cfg :=
-  {| c_eid := s2l "eq"; c_version := s2l "v1"; c_desc := Some (s2l "d");
-     c_ifaces := [(s2l "tcp", 10767)]; c_bcast := false |}.
-
 Definition request_bytes : bytes := utf8_encode (s2l "{""SECoP"":""discover""}").
 Definition request_parse : parse := PObj [(K_SECoP, Some K_discover)].
-
-(* finding C19/killed-by-datagram.  Each of these first datagrams -- invalid UTF-8; the JSON number 5; the JSON
-   string "xSECoPy"; the JSON array ["SECoP"] -- ends the responder: the discovery request that follows
-   is a request, the responder is enabled and has a port, yet nothing is sent. *)
-Definition killers : list (bytes * parse) :=
-  [ ([255], PBad);
-    (utf8_encode (s2l "5"), PScalar);
-    (utf8_encode (s2l """xSECoPy"""), PStr (s2l "xSECoPy"));
-    (utf8_encode (s2l "[""SECoP""]"), PArr [Some K_SECoP]) ].
-
-Theorem C19_refuted_survives :
-  l_enabled (init cfg_small) = true /\ l_ports (init cfg_small) = [10767] /\
-  is_request request_bytes request_parse = true /\
-  Forall (fun k => exists e,
-            let r := run (init cfg_small) [IRecv (fst k) (snd k) 0; IRecv request_bytes request_parse 1] in
-            st r = Killed e /\ outs r = [])
-         killers.
-Proof.
-  split; [vm_compute; reflexivity|]. split; [vm_compute; reflexivity|]. split; [vm_compute; reflexivity|].
-  repeat constructor; eexists; vm_compute; split; reflexivity.
-Qed.
-
-(* the same for every history: once a killer has been received nothing is sent any more, whatever follows *)
-Theorem C19_refuted_survives_general : forall l ins1 data p a ins2,
-  l_enabled l = true -> Forall benign ins1 -> killer data p = true ->
-  outs (run l (ins1 ++ IRecv data p a :: ins2)) = outs (run l ins1) /\
-  exists e, st (run l (ins1 ++ IRecv data p a :: ins2)) = Killed e.
-Proof. exact killer_ends_everything. Qed.
 
 (* finding C19/disabled-by-escaped-description: 100 control characters as description; the identity alone needs
    97 bytes, the responder is disabled *)
@@ -53,22 +24,4 @@ Proof.
   - repeat split; apply valid_closed; vm_compute; reflexivity.
   - apply Z.leb_le. vm_compute. reflexivity.
   - vm_compute. reflexivity.
-Qed.
-
-(* finding C19/oversize-announcement-when-disabled: an equipment id of 600 letters; the responder is disabled,
-   and still run() broadcasts an announcement of 688 bytes *)
-Definition cfg_long_id : cfg :=
-  {| c_eid := repeat 101 600; c_version := s2l "v1"; c_desc := Some (s2l "d");
-     c_ifaces := [(s2l "tcp", 10767)]; c_bcast := true |}.
-
-Theorem C19_refuted_bounded_when_disabled :
-  exists c, wf_cfg c /\ (forall p, In p (ports_of (c_ifaces c)) -> p <= 65535) /\
-    l_enabled (init c) = false /\
-    exists o, In o (outs (run (init c) [])) /\ (MAX_MESSAGE_LEN < blen (snd o))%Z.
-Proof.
-  exists cfg_long_id. split; [|split; [|split]].
-  - repeat split; apply valid_closed; vm_compute; reflexivity.
-  - intros p [<-|[]]. vm_compute. discriminate.
-  - vm_compute. reflexivity.
-  - eexists. split; [left; reflexivity|]. apply Z.ltb_lt. vm_compute. reflexivity.
 Qed.
